@@ -55,18 +55,16 @@ def main(args=None) -> int:
             sys.stdout.write(text if text.endswith("\n") else text + "\n")
             return 0
         case "test":
-            original = args.file.read()
-            source = parse(original)
-            if source.contains_error:
-                print("Fail")
-                return 1
-            rebuild = source.rebuild()
-
-            if original == rebuild:
-                print("OK")
-                return 0
-            print("Fail")
-            return 1
+            try:
+                original = args.file.read()
+                source = parse(original)
+                passed = not source.contains_error and source.rebuild() == original
+            except Exception:
+                # Input that cannot be decoded, parsed or rebuilt does not round-trip
+                # either: report the verdict instead of a traceback.
+                passed = False
+            print("OK" if passed else "Fail")
+            return 0 if passed else 1
         case _:
             parser.print_help(sys.stderr)
             return 2
